@@ -1,0 +1,10 @@
+//go:build !verif
+// +build !verif
+
+// Package verifhook: observation points for the verification harness; empty without the
+// build tag `verif`.
+package verifhook
+
+func Point(name, key string) {}
+
+func Clock() (int64, bool) { return 0, false }
